@@ -80,7 +80,9 @@ RouteClause == IF \E q \in 1..Len(C.routes) : LET r == C.routes[q] IN
                ELSE "ok"
 First(s) == LET bad == {i \in 1..Len(s) : s[i] # "ok"} IN IF bad = {} THEN "ok" ELSE s[SetMin(bad)]
 Verdict == IF C.raised THEN <<"rejected", "valid-fit-raised">>
-           ELSE IF FMaxAbs(T) > 250 * S \/ FMaxAbs(C.KNN) > 250 * S THEN <<"inconclusive", "magnitude">>
+           ELSE IF FMaxAbs(C.KNN) > 250 * S THEN <<"inconclusive", "magnitude">>            \* input kernel out of the fixed-point range
+           \* squared norms of the latent coordinates are eigenvalues of the modified kernel: bounded by the (bounded) inputs
+           ELSE IF FMaxAbs(T) > 250 * S THEN <<"rejected", "latent-coordinates-out-of-range-or-not-finite">>
            ELSE IF ~ScaleOK THEN <<"inconclusive", "scale-witness">>
            ELSE LET c == First(<<EigClause, HeldClause, RouteClause>>) IN IF c = "ok" THEN <<"ok">> ELSE <<"rejected", c>>
 Emit == PrintT(ToJson([k |-> "V", id |-> C.id, v |-> Verdict, ctx |-> [kernel |-> C.kernel, center |-> C.center, ginv |-> GOK, nheld |-> Len(C.held)]]))
